@@ -26,7 +26,7 @@ static vf::json gen_case(vf::Choice& ch, int size, const std::string& prop) {
     } else {
         c["policy"] = kPolicies[ch.draw(5)];
     }
-    int style = ch.draw(3);
+    int style = ch.draw(4);
     c["style"] = style;
     std::vector<int> order;
     for (int i = 0; i < 16; ++i) {
